@@ -39,6 +39,9 @@ func profileByName(name string, r *rand.Rand) Profile {
 		p.AppLagPct, p.WStorage, p.CrashPct, p.WCrash = 90, 6, 40, 4
 	case "snapshot":
 		p.CompactPct, p.WMisc, p.CCPct, p.DropPct = 100, 8, 10, 10
+	case "snapshot-lag":
+		// snapshots and compaction while storage threads lag and terms change
+		p.CompactPct, p.WMisc, p.AppLagPct, p.DropPct, p.WTick, p.CampaignPct = 100, 9, 85, 10, 22, 40
 	case "churn":
 		p.CCPct, p.WMisc, p.CrashPct, p.DropPct = 100, 9, []int{0, 10}[r.Intn(2)], []int{0, 5}[r.Intn(2)]
 	case "churn-lag":
@@ -51,6 +54,9 @@ func profileByName(name string, r *rand.Rand) Profile {
 		p.WRead, p.WNet, p.CrashPct = 10, 4, 10
 	case "transfer":
 		p.TransferPct, p.WMisc, p.CrashPct = 60, 8, 5
+	case "opfuzz":
+		// every local operation at every role
+		p.WMisc, p.CampaignPct, p.TransferPct, p.CompactPct, p.CCPct, p.WRead, p.CrashPct = 22, 100, 100, 100, 60, 4, 10
 	case "calm":
 		p.DropPct, p.CrashPct, p.StalePct, p.DupPct, p.WNet, p.WCrash = 0, 0, 0, 0, 0, 0
 	case "kitchen-sink":
@@ -76,11 +82,11 @@ var profileMix = map[string][]string{
 	"C06": {"steady", "flow", "churn", "partition", "crash-heavy", "kitchen-sink"},
 	"C07": {"kitchen-sink", "election-storm", "crash-heavy", "partition", "snapshot"},
 	"C08": {"flow", "async-lag", "snapshot", "crash-heavy", "kitchen-sink"},
-	"C09": {"snapshot", "snapshot", "snapshot", "churn", "crash-heavy", "kitchen-sink"},
-	"C10": {"churn", "churn", "churn", "snapshot", "election-storm", "kitchen-sink"},
+	"C09": {"snapshot", "snapshot", "snapshot", "snapshot-lag", "churn", "crash-heavy", "kitchen-sink"},
+	"C10": {"churn", "churn", "churn", "churn-lag", "snapshot", "election-storm", "kitchen-sink"},
 	"C11": {"read", "read", "read", "partition", "election-storm", "churn"},
-	"C14": {"kitchen-sink", "kitchen-sink", "churn", "snapshot", "crash-heavy", "async-lag", "flow", "transfer", "election-storm"},
-	"C15": {"kitchen-sink", "partition", "churn", "snapshot", "flow", "transfer", "crash-heavy", "async-lag", "election-storm"},
+	"C14": {"kitchen-sink", "kitchen-sink", "churn", "snapshot", "crash-heavy", "async-lag", "flow", "transfer", "election-storm", "opfuzz", "opfuzz", "churn-lag"},
+	"C15": {"kitchen-sink", "partition", "churn", "snapshot", "snapshot-lag", "flow", "transfer", "crash-heavy", "async-lag", "election-storm"},
 	"C16": {"flow", "flow", "flow", "steady", "partition", "kitchen-sink"},
 	"C17": {"partition", "partition", "election-storm", "transfer", "kitchen-sink", "churn"},
 	"C19": {"kitchen-sink", "churn", "snapshot", "flow", "read", "transfer"},
@@ -153,7 +159,7 @@ func GenWorld(seed int64, prop string, idx int, steps int) WorldCfg {
 		cfg.Voters = cfg.Voters[:nn-1]
 	}
 	allAsync := r.Intn(3)
-	if cfg.Prof.Name == "async-lag" || cfg.Prof.Name == "churn-lag" {
+	if cfg.Prof.Name == "async-lag" || cfg.Prof.Name == "churn-lag" || cfg.Prof.Name == "snapshot-lag" {
 		allAsync = 0
 	}
 	mixed := r.Intn(3) == 0 // mixed PreVote/CheckQuorum flags
@@ -266,7 +272,11 @@ func (w *World) Gen(r *rand.Rand) Action {
 			}
 		case k < p.WTick+p.WDeliver+p.WNet+p.WRead:
 			w.seq++
-			return Action{K: "read", N: n.id, D: []byte(fmt.Sprintf("r%d", w.seq))}
+			at := n.id
+			if l := w.topLeader(); l != nil && r.Intn(2) == 0 {
+				at = l.id
+			}
+			return Action{K: "read", N: at, D: []byte(fmt.Sprintf("r%d", w.seq))}
 		case k < p.WTick+p.WDeliver+p.WNet+p.WRead+p.WPropose:
 			if r.Intn(8) == 0 {
 				var l [][]byte
